@@ -32,7 +32,8 @@ type geHarness struct {
 	vals    map[string]mv
 	trace   []string
 	nres    int
-	failAt  int // 1-based index of the operation that fails (0 = none)
+	writes  string // a mutating call the evaluator made on the caller's collections
+	failAt  int    // 1-based index of the operation that fails (0 = none)
 	nops    int
 	inTrue  bool
 	fns     map[string]*ssa.Function
@@ -147,6 +148,20 @@ func (h *geHarness) symCall(m *mach, recv *mSym, method *types.Func, args []mv) 
 		}
 		opsName := h.nameOf(args[1])
 		return h.result("call "+strings.TrimPrefix(recv.name, "fn:")+"("+strings.Join(as, ",")+") with "+opsName, false), true
+	case recv.name == "vars" || recv.name == "funcs":
+		// anything but a lookup changes the caller's collection (Locate creates, Add / Remove / Clear …)
+		switch method.Name() {
+		case "FindIndexByName", "Length", "Get", "GetAll":
+			return nil, false
+		}
+		if h.writes == "" {
+			h.writes = "the evaluator calls " + method.Name() + " on the caller's " + map[string]string{"vars": "variable", "funcs": "function"}[recv.name] + " collection"
+		}
+		if recv.name == "vars" {
+			n, _ := args[0].(string)
+			return &mSym{name: "var:" + n, nonNil: true}, true
+		}
+		return nil, false
 	case recv.name == "ops":
 		var as []string
 		for _, a := range args {
@@ -192,6 +207,7 @@ func (h *geHarness) evaluate(ls []lexeme, failAt int, reparse bool) geResult {
 	}
 	h.m.steps = 0
 	h.trace, h.nres, h.nops, h.failAt = nil, 0, 0, failAt
+	h.writes = ""
 	if reparse {
 		var arr []mv
 		for i, l := range ls {
@@ -235,6 +251,9 @@ func (h *geHarness) evaluate(ls []lexeme, failAt int, reparse bool) geResult {
 	sort.Strings(known)
 	before := h.snapshot(known)
 	r, out := h.m.Call(ev, h.calc, &mSym{name: "vars", nonNil: true}, &mSym{name: "funcs", nonNil: true})
+	if h.writes != "" {
+		return geResult{kind: "mutated", trace: h.trace, why: h.writes}
+	}
 	if after := h.snapshot(known); after != before && out.kind == "ok" {
 		return geResult{kind: "mutated", trace: h.trace, why: fmt.Sprintf("before [%s] after [%s]", before, after)}
 	}
